@@ -285,7 +285,7 @@ class Frame:
 
 class Interp:
     def __init__(self, repo, types, eff, inline=None, max_depth=4, max_paths=3000, collections=None,
-                 exc_in_try=False, enum_domain=None, call_hook=None, expand_loops=None):
+                 exc_in_try=False, enum_domain=None, call_hook=None, havoc_on_call=True, integral=()):
         self.repo, self.types, self.eff = repo, types, eff
         self.inline = inline or (lambda call, callee, depth: False)
         self.max_depth = max_depth
@@ -294,6 +294,8 @@ class Interp:
         self.exc_in_try = exc_in_try
         self.enum_domain = enum_domain or {}  # enum class -> members to consider
         self.call_hook = call_hook
+        self.havoc_on_call = havoc_on_call
+        self.integral = set(integral)  # symbols known to be integer-valued (besides len(...))
         self.npaths = 0
         self._fresh = itertools.count()
         self.unknown_stmts = []
@@ -1125,7 +1127,7 @@ class Interp:
             recv = self.eval(f.value, st, fr, effects)
         if effects or callees:
             st.trace.append(Call(ast.unparse(f), [c.qualname for c in callees], argvals, e, fr.func, fr.stack, False, recv))
-        if callees:
+        if callees and self.havoc_on_call:
             # opaque in-package call: forget what it may write
             attrs = set()
             for c in callees:
@@ -1451,7 +1453,7 @@ class Interp:
                         if c < 0:
                             kind = {ast.Lt: ast.Gt, ast.LtE: ast.GtE, ast.Gt: ast.Lt, ast.GtE: ast.LtE}[kind]
                         lo, hi = st.bounds.get(syms[0][0], (None, None))
-                        integral = syms[0][0].startswith("len(")
+                        integral = syms[0][0].startswith("len(") or syms[0][0] in self.integral
                         if kind is ast.Lt:
                             nh = (k0 - 1) if integral and k0.denominator == 1 else k0
                             hi = nh if hi is None or nh < hi else hi
